@@ -276,6 +276,8 @@ KeywordChanges(b) ==
 Duplications(b) ==
     LET l == b.line IN
     {Mut("dup-tail", b, l \o SubSeq(l, i, Len(l))) : i \in Spaces(l)}
+    \* the beginning of the message repeated in front of the whole message ("Accepted publickey Accepted publickey for ...")
+    \cup {Mut("dup-head", b, SubSeq(l, 1, i) \o l) : i \in Spaces(l)}
     \cup {Mut("dup-all", b, l \o " " \o l), Mut("dup-nl", b, l \o "\n" \o l), Mut("trail-sp", b, l \o " "),
           Mut("trail-preauth", b, l \o " [preauth]"), Mut("trail-nl", b, l \o "\n"),
           Mut("trail-tab", b, l \o "\t"), Mut("trail-cr", b, l \o "\r"), Mut("trail-sp2", b, l \o "  ")}
